@@ -192,6 +192,59 @@ shim::Paths rectclip(const shim::RectArgs& a) {
   return fromPaths(RectClip(rect, in));
 }
 
+shim::ProbeResult probe(const shim::ProbeArgs& a) {
+  shim::ProbeResult r;
+  PathsD in = toPathsD(a.paths);
+  auto count = [&r](const PathsD& pp) { r.outPaths = pp.size(); for (auto& p : pp) r.outPts += p.size(); };
+#if (defined(__cpp_exceptions) && __cpp_exceptions)
+  try {
+#endif
+    switch (a.kind) {
+      case shim::P_ClipperD_Subject: case shim::P_ClipperD_Clip: case shim::P_ClipperD_Open: {
+        ClipperD c(a.precision);
+        r.hasErrorCode = true;
+        PathsD big = {{PointD(a.l, a.t), PointD(a.r, a.t), PointD(a.r, a.b), PointD(a.l, a.b)}};
+        if (a.kind == shim::P_ClipperD_Subject) c.AddSubject(in);
+        else if (a.kind == shim::P_ClipperD_Clip) { c.AddSubject(in); c.AddClip(in); }
+        else c.AddOpenSubject(in);
+        PathsD sol, so;
+        c.Execute(ClipType::Union, FillRule::NonZero, sol, so);
+        r.error = c.ErrorCode();
+        count(sol);
+        r.outPaths += so.size();
+        for (auto& p : so) r.outPts += p.size();
+        break;
+      }
+      case shim::P_BooleanOpD: count(BooleanOp(ClipType::Union, FillRule::NonZero, in, PathsD(), a.precision)); break;
+      case shim::P_BooleanOpTreeD: {
+        PolyTreeD t;
+        BooleanOp(ClipType::Union, FillRule::NonZero, in, PathsD(), t, a.precision);
+        count(PolyTreeToPathsD(t));
+        break;
+      }
+      case shim::P_UnionD: count(Union(in, FillRule::NonZero, a.precision)); break;
+      case shim::P_InflatePathsD: count(InflatePaths(in, a.delta, JoinType::Miter, EndType::Polygon, 2.0, a.precision)); break;
+      case shim::P_RectClipD: count(RectClip(RectD(a.l, a.t, a.r, a.b), in, a.precision)); break;
+      case shim::P_RectClipLinesD: count(RectClipLines(RectD(a.l, a.t, a.r, a.b), in, a.precision)); break;
+      case shim::P_TrimCollinearD: { PathD p = TrimCollinear(in.empty() ? PathD() : in[0], a.precision, false); r.outPaths = p.empty() ? 0 : 1; r.outPts = p.size(); break; }
+      case shim::P_ScalePath: {
+        r.hasErrorCode = true;
+        Path64 p = ScalePath<int64_t, double>(in.empty() ? PathD() : in[0], a.scale, r.error);
+        r.outPaths = p.empty() ? 0 : 1; r.outPts = p.size();
+        break;
+      }
+      case shim::P_MakePath: { Path64 p = MakePath(a.list); r.outPaths = p.empty() ? 0 : 1; r.outPts = p.size(); break; }
+      case shim::P_MakePathD: { PathD p = MakePathD(a.list); r.outPaths = p.empty() ? 0 : 1; r.outPts = p.size(); break; }
+      default: break;
+    }
+#if (defined(__cpp_exceptions) && __cpp_exceptions)
+  } catch (const Clipper2Exception&) {
+    r.threw = true;
+  }
+#endif
+  return r;
+}
+
 bool segIntersect(const shim::Pt& a, const shim::Pt& b, const shim::Pt& c, const shim::Pt& d, shim::Pt& ip) {
   Point64 r;
   bool ok = GetSegmentIntersectPt(toPt(a), toPt(b), toPt(c), toPt(d), r);
